@@ -131,6 +131,7 @@ def showErr : ErrKind → String
   | .body => "body"
   | .disconnectTimeout => "disconnect-timeout"
   | .tooLarge => "parse:too-large"
+  | .fuel => "MODEL-OUT-OF-FUEL"
 
 def traceStr (tr : List String) : String :=
   let cap := 160
